@@ -483,14 +483,88 @@ def file_history_part(ck, L, G, order, n):
     for t in triples(L, G):
         if t[2] in CHECKED and t[4][0] in ("drop", "set"):
             tr.setdefault(t[0], []).append(t)
+    all_tops = tops
     tops = [e for e in tops if e["type"] in tr]
+
+    def random_pair(no_id=False):
+        for _ in range(50):
+            e = rng.choice(tops)
+            cands = [t for t in tr[e["type"]] if not (no_id and t[1] == "id")]
+            if not cands:
+                continue
+            (_, member, facet, inh, op) = rng.choice(cands)
+            good = G.tree(e["type"], 0)
+            bad = json.loads(json.dumps(good))
+            apply_op(L, G, bad, member, op)
+            return e, bad, good
+        raise RuntimeError("no top-level type with a checked facet")
     for _ in range(n):
-        e = rng.choice(tops)
-        (_, member, facet, inh, op) = rng.choice(tr[e["type"]])
-        good = G.tree(e["type"], 0)
-        bad = json.loads(json.dumps(good))
-        apply_op(L, G, bad, member, op)
+        e, bad, good = random_pair()
         scs.append(scenario(e["py"], bad, good))
+    # ---- the violating component of the included file has the id of a component of ANOTHER KIND (another member list)
+    # of the including file: ids are only unique within one member list, the included component must not be dropped
+    pg = lambda i: {"l": [T_("PulseGenerator", id=s_("pg%d" % i), delay=s_("10ms"), duration=s_("50ms"), amplitude=s_("0.2nA"))]}  # noqa
+
+    def with_id(t, ident):
+        t = json.loads(json.dumps(t))
+        t["kw"] = [kv for kv in t["kw"] if kv[0] != "id"] + [["id", s_(ident)]]
+        return t
+
+    def has_id(c):
+        return any(a["py"] == "id" and a["st"] == "NmlId" for a in L.all_attrs(c))
+
+    def collision_scenario(member, bad, good, ident, others):
+        files = {"shared.nml": {"cls": "NeuroMLDocument", "kw": [["id", s_("shared")], [member, {"l": [with_id(bad, ident)]}]]},
+                 "good_shared.nml": {"cls": "NeuroMLDocument", "kw": [["id", s_("goodshared")], [member, {"l": [with_id(good, ident)]}]]}}
+        expect = {"shared.nml": False, "good_shared.nml": True}
+        seq = []
+        for i, oe in enumerate(others):
+            other = with_id(G.tree(oe["type"], 0), ident)
+            for good_one in (False, True):
+                name = "%s_%d_%s.nml" % ("control" if good_one else "main", i, oe["py"])
+                files[name] = {"cls": "NeuroMLDocument", "kw": [
+                    ["id", s_("m%d" % i)], ["includes", inc_good if good_one else inc], ["pulse_generators", pg(i)], [oe["py"], {"l": [other]}]]}
+                expect[name] = good_one
+                seq += [["is_valid", name], ["validate", name]]
+        return {"files": files, "sequences": [seq], "expect": expect, "key": "C03:violation-in-include-whose-id-equals-an-id-of-another-list-accepted",
+                "about": "included %s id=%s violates the schema; the including file holds %s with the same id" % (
+                    member, ident, ", ".join(o["py"] for o in others))}
+    izh_good = T_("IzhikevichCell", id=s_("granule"), v0=s_("-70mV"), thresh=s_("30mV"), a=s_("0.02"), b=s_("0.2"), c=s_("-65"), d=s_("6"))
+    izh_bad = json.loads(json.dumps(izh_good))
+    izh_bad["kw"] = [kv for kv in izh_bad["kw"] if kv[0] != "a"]
+    by_py = {e["py"]: e for e in all_tops}
+    idtops = [e for e in all_tops if has_id(e["type"])]
+    if "izhikevich_cells" in by_py and "networks" in by_py:
+        scs.append(collision_scenario("izhikevich_cells", izh_bad, izh_good, "granule",
+                                      [by_py["networks"]] + [by_py[k] for k in ("iaf_cells", "ion_channel") if k in by_py]))
+    for _ in range(n):
+        e, bad, good = random_pair(no_id=True)
+        if not has_id(e["type"]):
+            continue
+        same = [o for o in idtops if o["type"] == e["type"] and o["py"] != e["py"]]       # the same kind in another list
+        rest = [o for o in idtops if o["py"] != e["py"] and o not in same]
+        scs.append(collision_scenario(e["py"], bad, good, "shared_id_%d" % rng.randrange(100), same[:1] + rng.sample(rest, 2 - len(same[:1]))))
+    # ---- include chains: the violation sits in the INNERMOST file of a chain of depth 3 (and 2), listed nowhere else
+    def chain_scenario(member, bad, good, depths):
+        files, expect, seq = {}, {}, []
+        for depth in depths:
+            for kind, comp in (("bad", bad), ("good", good)):
+                names = ["%s_chain%d_level%d.nml" % (kind, depth, i) for i in range(depth + 1)]
+                for i, name in enumerate(names):
+                    kw = [["id", s_("%s%d_%d" % (kind, depth, i))], ["pulse_generators", pg(10 * depth + i)]]
+                    if i < depth:
+                        kw.append(["includes", {"l": [T_("IncludeType", href=s_(names[i + 1]))]}])
+                    else:
+                        kw.append([member, {"l": [comp]}])
+                    files[name] = {"cls": "NeuroMLDocument", "kw": kw}
+                    expect[name] = kind == "good"
+                seq += [["is_valid", names[0]], ["validate", names[0]]]
+        return {"files": files, "sequences": [seq, seq[::-1]], "expect": expect, "key": "C03:violation-in-nested-include-accepted",
+                "about": "%s violating the schema in the innermost file of include chains of depth %s" % (member, list(depths))}
+    scs.append(chain_scenario("iaf_cells", T_("IafCell", id=s_("iaf0"), **dict(IAF, thresh=s_("-55 seconds"))), T_("IafCell", id=s_("iaf0"), **IAF), (2, 3)))
+    for _ in range(n):
+        e, bad, good = random_pair()
+        scs.append(chain_scenario(e["py"], bad, good, (rng.choice([3, 4]),)))
     out = ck.impl("c03_impl.py", {"mode": "filehistory", "order": order, "scenarios": scs}, timeout=1500)["results"]
     corr_c, corr_r = [], []
     for sc, r in zip(scs, out):
@@ -500,15 +574,20 @@ def file_history_part(ck, L, G, order, n):
             continue
         fresh = r["fresh"]
         # the fresh-process verdicts themselves: the files that include the violating file are invalid, the controls valid
-        for f, want in (("shared.nml", False), ("main1.nml", False), ("main2.nml", False), ("good_shared.nml", True), ("main_good.nml", True)):
-            got = fresh[f]["is_valid"]
-            if got is not want and not (want is False and isinstance(got, str)):
-                ck.witness("C03:file-with-violation-in-include-accepted" if want is False else "C02:valid-file-with-include-rejected",
-                           "is_valid_neuroml2(%s) in a fresh process says %s" % (f, got), input={"files": sc["files"], "file": f},
-                           expected=want, observed=got)
+        expect = sc.get("expect") or {"shared.nml": False, "main1.nml": False, "main2.nml": False, "good_shared.nml": True, "main_good.nml": True}
+        ck.tally("file-scenario:" + sc.get("key", "C03:file-with-violation-in-include-accepted"))
+        for f, want in sorted(expect.items()):
+            for fn, got in (("is_valid_neuroml2", fresh[f]["is_valid"]),
+                            ("validate_neuroml2", {"ValueError": False, "no exception": True}.get(fresh[f]["validate"], fresh[f]["validate"]))):
+                ck.count(1, nontrivial_key=("file-verdict", json.dumps(sc["files"][f], sort_keys=True)[:3000], fn) if "key" in sc else None)
+                if got is not want and not (want is False and isinstance(got, str)):
+                    ck.witness(sc.get("key", "C03:file-with-violation-in-include-accepted") if want is False else "C02:valid-file-with-include-rejected",
+                               "%s(%s) in a fresh process, default arguments, says %s%s" % (
+                                   fn, f, {True: "valid", False: "invalid"}.get(got, got), "; " + sc["about"] if "about" in sc else ""),
+                               input={"files": sc["files"], "file": f}, expected=want, observed=got)
         for i, seq in enumerate(r["sequences"]):
             for j, (fn, f, v) in enumerate(seq):
-                ck.count(1, nontrivial_key=("file-history", json.dumps(sc["files"]["shared.nml"], sort_keys=True), i, j))
+                ck.count(1, nontrivial_key=("file-history", json.dumps(sc["files"][sorted(sc["files"])[0]], sort_keys=True)[:3000], f, i, j))
                 ck.tally("file-history-call:" + fn)
                 if v != fresh[f][fn]:
                     ck.witness("C03:file-verdict-depends-on-history",
@@ -688,6 +767,15 @@ def replay(ck, data):
         rows = [{"call": "%s(%s)" % (fn, f), "in this sequence": v, "in a fresh process": fresh.get(f, {}).get(fn)} for fn, f, v in seq]
         print(json.dumps({"stored": {k: data.get(k) for k in ("key", "what")}, "now": rows, "error": r.get("err")}, indent=1)[:6000])
         return 1 if any(x["in this sequence"] != x["in a fresh process"] for x in rows) else 0
+    if "files" in inp and "file" in inp:
+        r = ck.impl("c03_impl.py", {"mode": "filehistory", "order": order, "scenarios": [{"files": inp["files"], "sequences": []}]})["results"][0]
+        now = r.get("fresh", {}).get(inp["file"])
+        ld = r.get("loaded", {}).get(inp["file"])
+        print(json.dumps({"stored": {k: data.get(k) for k in ("key", "what", "expected", "observed")}, "file": inp["file"],
+                          "now (fresh process, default arguments)": now,
+                          "validate(recursive=True) of the loaded document": ld.get("rec") if isinstance(ld, dict) else ld,
+                          "all files": {f: v for f, v in r.get("fresh", {}).items()}, "error": r.get("err")}, indent=1)[:6000])
+        return 1 if not now or now.get("is_valid") is not data.get("expected") else 0
     r = ck.impl("c03_impl.py", {"order": order, "cases": [inp], "want": ["rec", "nonrec", "text", "file"]})["results"][0]
     model = None
     try:     # the model on the same tree (tables regenerated from the tree under test)
